@@ -24,18 +24,27 @@ ConstFeats == {"type:str", "type:int", "type:float", "type:bool", "lit:5", "lit:
 \* It answers 0 and says nothing about the submission.  IMPLEMENTATION-SHAPED: the tool keeps one success flag for
 \* "the last parse"; the results of earlier parses are cached.  Flag "stale_failure" models the cache-hit path that
 \* serves the cached tree of the submission without resetting the flag the failed foreign parse left behind.
-VARIABLES prog, hist, handlers, failed
-vars == <<prog, hist, handlers, failed>>
+\* "verifyOther": the instructor syntax-checks ANOTHER text with the Source tool (verify(other_text)); it answers
+\* nothing about the submission either.  IMPLEMENTATION-SHAPED: the Source tool keeps the tree of the last text it
+\* parsed and CAIT, when it has not parsed the submission yet, takes that tree instead of parsing.  Flag
+\* "steals_foreign_tree" models taking it without checking whose text it is the tree of: the first query after
+\* verifyOther is then answered on the other text (which contains none of the features) and the wrong tree is cached.
+Pseudo == {"foreign", "verifyOther"}
+VARIABLES prog, hist, handlers, failed, srcTree, cached
+vars == <<prog, hist, handlers, failed, srcTree, cached>>
 
-Init == prog \in {p \in [Feats -> 0..MaxOcc] : "foreign" \in Feats => p["foreign"] = 0}
+Init == prog \in {p \in [Feats -> 0..MaxOcc] : \A f \in Pseudo \cap Feats : p[f] = 0}
         /\ hist = <<>> /\ handlers = {} /\ failed = FALSE
+        /\ srcTree = "none" /\ cached = "none"          \* whose tree the Source tool holds / CAIT has cached for the submission
 
 RECURSIVE SumOver(_)
 SumOver(S) == IF S = {} THEN 0 ELSE LET f == CHOOSE f \in S : TRUE IN prog[f] + SumOver(S \ {f})
 Constants == SumOver(Feats \cap ConstFeats)          \* Constant nodes the program contains
 
 \* what one find_all-based query returns
-Answer(f) == IF f = "foreign" THEN 0
+WrongTree == cached = "other" \/ (cached = "none" /\ srcTree = "other" /\ "steals_foreign_tree" \in Flags)
+Answer(f) == IF f \in Pseudo THEN 0
+             ELSE IF WrongTree THEN 0                                    \* asked of the other text's tree
              ELSE IF "stale_failure" \in Flags /\ failed THEN 0          \* `if not cait_report['success']: return []`
              ELSE IF f \in ConstFeats THEN prog[f]
              ELSE prog[f] + (IF "Constant" \in handlers THEN Constants ELSE 0)
@@ -44,6 +53,8 @@ Ask(f) == /\ Len(hist) < MaxLen
           /\ handlers' = IF "visitor_reused" \in Flags /\ f \in ConstFeats THEN handlers \cup {"Constant"}
                          ELSE IF "visitor_reused" \in Flags THEN handlers ELSE {}
           /\ failed' = (f = "foreign" \/ ("stale_failure" \in Flags /\ failed))
+          /\ srcTree' = IF f = "verifyOther" THEN "other" ELSE srcTree
+          /\ cached' = IF f \in Pseudo THEN cached ELSE IF WrongTree THEN "other" ELSE "own"
           /\ UNCHANGED prog
 Next == \E f \in Feats : Ask(f)
 Spec == Init /\ [][Next]_vars
